@@ -483,12 +483,150 @@ def plant_norinori(rng):
     return inst, R.set_sol(h, w, S), True
 
 
+TETRO = [[(0, 0), (0, 1), (0, 2), (0, 3)], [(0, 0), (1, 0), (2, 0), (2, 1)], [(0, 0), (0, 1), (0, 2), (1, 1)], [(0, 0), (0, 1), (1, 1), (1, 2)]]
+
+
+def _orientations(cells):
+    out = set()
+    cs = list(cells)
+    for _ in range(4):
+        cs = [(x, -y) for y, x in cs]
+        for m in (cs, [(y, -x) for y, x in cs]):
+            my, mx = min(y for y, x in m), min(x for y, x in m)
+            out.add(tuple(sorted((y - my, x - mx) for y, x in m)))
+    return sorted(out)
+
+
+def plant_lits(rng):
+    """Tetrominoes placed one after the other, each touching the shaded area by an edge (connectivity), never closing a 2x2 block,
+    never touching a tetromino of its own shape; every room is then grown around exactly one tetromino."""
+    h, w = shape(rng, 4, 6)
+    placed = []  # (shape index, cells)
+    B = {}
+    for _ in range(rng.randint(2, 5)):
+        for _try in range(60):
+            k = rng.randrange(4)
+            o = rng.choice(_orientations(TETRO[k]))
+            oy, ox = rng.randrange(h), rng.randrange(w)
+            cells = [(oy + y, ox + x) for y, x in o]
+            if any(not (0 <= y < h and 0 <= x < w) or (y, x) in B for y, x in cells):
+                continue
+            touch = {B[(y + dy, x + dx)] for y, x in cells for dy, dx in N4 if (y + dy, x + dx) in B}
+            if placed and not touch:
+                continue
+            if any(placed[t][0] == k for t in touch):
+                continue
+            nb = set(B) | set(cells)
+            if any(all(c in nb for c in ((y, x), (y + 1, x), (y, x + 1), (y + 1, x + 1))) for y in range(h - 1) for x in range(w - 1)):
+                continue
+            for c in cells:
+                B[c] = len(placed)
+            placed.append((k, cells))
+            break
+    if len(placed) < 2:
+        return None
+    owner = dict(B)
+    while len(owner) < h * w:
+        c = rng.choice(sorted(owner))
+        dy, dx = rng.choice(N4)
+        q = (c[0] + dy, c[1] + dx)
+        if 0 <= q[0] < h and 0 <= q[1] < w and q not in owner:
+            owner[q] = owner[c]
+    rooms = [[list(c) for c in sorted(owner) if owner[c] == k] for k in range(len(placed))]
+    inst = {"h": h, "w": w, "rooms": rooms}
+    return inst, R.set_sol(h, w, set(B)), R._lits_valid(inst, set(B), "std")
+
+
+def plant_yinyang(rng):
+    """A random two-colouring with both colours connected and no single-coloured 2x2 block, found by growing one colour from the
+    border inwards and repairing; clues = a random subset of the cells."""
+    h, w = shape(rng, 4, 6)
+    cells = allc(h, w)
+    for _ in range(300):
+        B = grow_connected(rng, h, w, rng.uniform(0.35, 0.65))
+        inst = {"h": h, "w": w, "p": [[0] * w for _ in range(h)]}
+        # repair single-coloured 2x2 blocks by flipping one of their cells a few times
+        for _rep in range(40):
+            bad = [(y, x) for y in range(h - 1) for x in range(w - 1)
+                   if sum(1 for c in ((y, x), (y + 1, x), (y, x + 1), (y + 1, x + 1)) if c in B) in (0, 4)]
+            if not bad:
+                break
+            y, x = rng.choice(bad)
+            c = rng.choice([(y, x), (y + 1, x), (y, x + 1), (y + 1, x + 1)])
+            B ^= {c}
+        if R._yy_valid(inst, B, "std"):
+            p = [[(2 if (y, x) in B else 1) if rng.random() < 0.35 else 0 for x in range(w)] for y in range(h)]
+            inst["p"] = p
+            return inst, R.set_sol(h, w, B), R._yy_valid(inst, B, "std")
+    return None
+
+
+def _tile5(rng, cells, cap=4000):
+    """random partition of `cells` into orthogonally connected blocks of five (randomised backtracking, node cap) or None"""
+    cells = set(cells)
+    nodes = [0]
+
+    def blocks_with(first, avail):
+        out = []
+
+        def grow(cur, banned):
+            if len(out) > 60:
+                return
+            if len(cur) == 5:
+                out.append(frozenset(cur))
+                return
+            cand = sorted({(y + dy, x + dx) for y, x in cur for dy, dx in N4} & avail - cur - banned)
+            rng.shuffle(cand)
+            b = set(banned)
+            for c in cand:
+                grow(cur | {c}, frozenset(b))
+                b.add(c)
+        grow(frozenset([first]), frozenset())
+        rng.shuffle(out)
+        return out
+
+    def rec(avail):
+        nodes[0] += 1
+        if nodes[0] > cap:
+            return None
+        if not avail:
+            return []
+        first = min(avail)
+        for b in blocks_with(first, avail):
+            r = rec(avail - b)
+            if r is not None:
+                return [b] + r
+        return None
+    return rec(frozenset(cells))
+
+
+def plant_fivecells(rng):
+    h, w = rng.choice([(4, 5), (5, 4), (5, 5), (5, 6), (6, 5), (3, 5), (5, 3), (4, 4), (6, 4)])
+    cells = allc(h, w)
+    holes = (h * w) % 5
+    if rng.random() < 0.4 and h * w - holes - 5 >= 10:
+        holes += 5
+    hs = set(rng.sample(cells, holes))
+    part = _tile5(rng, [c for c in cells if c not in hs])
+    if part is None:
+        return None
+    bid = {c: k for k, b in enumerate(part) for c in b}
+    p = [[-2 if (y, x) in hs else -1 for x in range(w)] for y in range(h)]
+    for y, x in bid:
+        if rng.random() < 0.35:
+            p[y][x] = sum(1 for dy, dx in N4 if (y + dy, x + dx) not in bid or bid[(y + dy, x + dx)] != bid[(y, x)])
+    inst = {"h": h, "w": w, "p": p}
+    edges = R._five_edges(inst)
+    return inst, {f"e{k}": bid[a] != bid[b] for k, (a, b) in enumerate(edges)}, True
+
+
 PLANTERS = {
     "slitherlink": plant_slitherlink, "masyu": plant_masyu, "geradeweg": plant_geradeweg, "simpleloop": plant_simpleloop,
     "yajilin": plant_yajilin, "castle_wall": plant_castle_wall, "creek": plant_creek, "gokigen": plant_gokigen, "akari": plant_akari,
     "heyawake": plant_heyawake, "aquarium": plant_aquarium, "sudoku": plant_sudoku, "building": plant_building,
     "doppelblock": plant_doppelblock, "compass": plant_compass, "fillomino": plant_fillomino,
-    "view": plant_view, "nurikabe": plant_nurikabe, "norinori": plant_norinori,
+    "view": plant_view, "nurikabe": plant_nurikabe, "norinori": plant_norinori, "lits": plant_lits, "yinyang": plant_yinyang,
+    "fivecells": plant_fivecells,
 }
 
 
